@@ -3,9 +3,11 @@ module verif/harness
 go 1.23.0
 
 require (
+	github.com/blang/semver v3.5.1+incompatible
 	github.com/golang/snappy v0.0.4
 	github.com/janelia-flyem/dvid v0.0.0
 	github.com/janelia-flyem/go v0.0.0-20180718195536-d388bdc31871
+	google.golang.org/protobuf v1.33.0
 )
 
 require (
@@ -26,7 +28,6 @@ require (
 	github.com/aws/aws-sdk-go-v2/service/sso v1.4.0 // indirect
 	github.com/aws/aws-sdk-go-v2/service/sts v1.7.0 // indirect
 	github.com/aws/smithy-go v1.8.0 // indirect
-	github.com/blang/semver v3.5.1+incompatible // indirect
 	github.com/cespare/xxhash v1.1.0 // indirect
 	github.com/cespare/xxhash/v2 v2.2.0 // indirect
 	github.com/coocood/freecache v1.2.1 // indirect
@@ -77,7 +78,6 @@ require (
 	google.golang.org/api v0.114.0 // indirect
 	google.golang.org/genproto v0.0.0-20230410155749-daa745c078e1 // indirect
 	google.golang.org/grpc v1.56.3 // indirect
-	google.golang.org/protobuf v1.33.0 // indirect
 )
 
 replace github.com/janelia-flyem/dvid => /repo
